@@ -77,7 +77,9 @@ func (rd *reader) sticky(rule string) {
 	// (b) stores to readErr never overwrite an error of an earlier call
 	storeFns := map[*ssa.Function]bool{}
 	for _, s := range c.P.FieldStoreSites(rd.readErr) {
-		storeFns[s.Parent()] = true
+		for _, h := range c.hostsOf(s.Parent()) { // extracted helpers are judged inside their callers
+			storeFns[h] = true
+		}
 	}
 	for _, g := range c.P.FuncList {
 		if !storeFns[g] {
@@ -184,8 +186,21 @@ func (rd *reader) close1002(rule string) {
 			if !futureDeadline(ev.Args[3]) {
 				ok, why = false, "the 1002 close frame is sent with the deadline "+ev.Args[3].String()+", which is not now + a positive constant: a deadline that may already have passed (e.g. one the application set for an earlier write) makes WriteControl return a timeout without sending anything"
 			}
-			// length guard: either truncated or known <= 125
-			if !sliced && !knowsLt(p, ev.NLits, maxCtl+1, func(y *core.Term) bool { return y.Kind == core.KLen }) {
+			// length guard: payload truncated or known <= 125, or the reason text truncated / known <= 123 before
+			// formatting (FormatCloseMessage returns 2 + len(text) bytes: C08.defaults / status-code-encoding)
+			textBounded := false
+			if len(data.Args) >= 2 {
+				text := data.Args[1]
+				if text.Kind == core.KSlice {
+					if hi, isC := text.Args[2].Int64(); isC && hi <= maxCtl-2 {
+						textBounded = true
+					}
+				}
+				if knowsLt(p, ev.NLits, maxCtl-1, func(y *core.Term) bool { return y == p.X.Len(text) }) {
+					textBounded = true
+				}
+			}
+			if !sliced && !textBounded && !knowsLt(p, ev.NLits, maxCtl+1, func(y *core.Term) bool { return y.Kind == core.KLen }) {
 				ok, why = false, "close payload may exceed 125 bytes (WriteControl would refuse it and nothing would be sent)"
 			}
 		}
